@@ -32,19 +32,22 @@ void F__ZdlPvm(char* p, uint64_t n) { free(p); }
 static void vf_str_init(char* s, const char* src, uint64_t n) {
   VF_ASSERT(n <= VF_STR_MAX, "string length within harness bound VF_STR_MAX");
   if (n > 15) { S_P(s) = vf_alloc(n + 1); S_CAP(s) = n; } else S_P(s) = S_BUF(s);
-  for (uint64_t i = 0; i < n && i < VF_STR_MAX; i++) S_P(s)[i] = src[i];
-  S_N(s) = n; S_P(s)[n] = 0;
+  char* d = S_P(s);
+  for (uint64_t i = 0; i < VF_STR_MAX; i++) if (i < n) d[i] = src[i];
+  S_N(s) = n; d[n] = 0;
 }
 static uint64_t vf_strlen(const char* p) { uint64_t n = 0; while (n < VF_STR_MAX + 64 && p[n]) n++; return n; }
 static void vf_str_set(char* s, const char* src, uint64_t n) {
-  /* replace contents (src may alias the old contents: copy first) */
+  /* replace contents (src may alias the old contents: copy first).  Loops run over concrete indices with guards, so that
+     no array is indexed symbolically by these stubs */
   char tmp[VF_STR_MAX + 1];
   VF_ASSERT(n <= VF_STR_MAX, "string length within harness bound VF_STR_MAX");
-  for (uint64_t i = 0; i < n && i < VF_STR_MAX; i++) tmp[i] = src[i];
+  for (uint64_t i = 0; i < VF_STR_MAX; i++) if (i < n) tmp[i] = src[i];
   uint64_t cap = S_LOCAL(s) ? 15 : S_CAP(s);
   if (n > cap) { char* np = vf_alloc(n + 1); if (!S_LOCAL(s)) free(S_P(s)); S_P(s) = np; S_CAP(s) = n; }
-  for (uint64_t i = 0; i < n && i < VF_STR_MAX; i++) S_P(s)[i] = tmp[i];
-  S_N(s) = n; S_P(s)[n] = 0;
+  char* d = S_P(s);
+  for (uint64_t i = 0; i < VF_STR_MAX; i++) if (i < n) d[i] = tmp[i];
+  S_N(s) = n; d[n] = 0;
 }
 /* basic_string(const char*, const allocator&) */
 void F__ZNSt7__cxx1112basic_stringIcSt11char_traitsIcESaIcEEC1EPKcRKS3_(char* s, char* cstr, char* alloc) {
@@ -73,30 +76,26 @@ void F__ZNSt7__cxx1112basic_stringIcSt11char_traitsIcESaIcEE9_M_assignERKS4_(cha
 }
 /* _M_append(const char*, size_type) -> *this */
 char* F__ZNSt7__cxx1112basic_stringIcSt11char_traitsIcESaIcEE9_M_appendEPKcm(char* s, char* p, uint64_t n) {
-  char tmp[2 * VF_STR_MAX + 1]; uint64_t n0 = S_N(s);
-  VF_ASSERT(n0 <= VF_STR_MAX && n <= VF_STR_MAX, "string length within harness bound VF_STR_MAX");
-  for (uint64_t i = 0; i < n0 && i < VF_STR_MAX; i++) tmp[i] = S_P(s)[i];
-  for (uint64_t i = 0; i < n && i < VF_STR_MAX; i++) tmp[n0 + i] = p[i];
-  VF_ASSERT(n0 + n <= VF_STR_MAX, "string length within harness bound VF_STR_MAX");
+  char tmp[VF_STR_MAX + 1]; uint64_t n0 = S_N(s); char* d = S_P(s);
+  VF_ASSERT(n0 <= VF_STR_MAX && n <= VF_STR_MAX && n0 + n <= VF_STR_MAX, "string length within harness bound VF_STR_MAX");
+  for (uint64_t i = 0; i < VF_STR_MAX; i++) { if (i < n0) tmp[i] = d[i]; else if (i < n0 + n) tmp[i] = p[i - n0]; }
   vf_str_set(s, tmp, n0 + n); return s;
 }
 /* _M_replace(pos, len1, s, len2) -> *this */
 char* F__ZNSt7__cxx1112basic_stringIcSt11char_traitsIcESaIcEE10_M_replaceEmmPKcm(char* s, uint64_t pos, uint64_t len1, char* p, uint64_t len2) {
-  char tmp[2 * VF_STR_MAX + 1]; uint64_t n0 = S_N(s);
+  char tmp[VF_STR_MAX + 1]; uint64_t n0 = S_N(s); char* d = S_P(s);
   VF_ASSERT(n0 <= VF_STR_MAX && len2 <= VF_STR_MAX, "string length within harness bound VF_STR_MAX");
   VF_ASSERT(pos <= n0 && len1 <= n0 - pos, "_M_replace: range inside string");
-  uint64_t k = 0;
-  for (uint64_t i = 0; i < pos && i < VF_STR_MAX; i++) tmp[k++] = S_P(s)[i];
-  for (uint64_t i = 0; i < len2 && i < VF_STR_MAX; i++) tmp[k++] = p[i];
-  for (uint64_t i = pos + len1; i < n0 && i < VF_STR_MAX; i++) tmp[k++] = S_P(s)[i];
+  uint64_t k = n0 - len1 + len2;
   VF_ASSERT(k <= VF_STR_MAX, "string length within harness bound VF_STR_MAX");
+  for (uint64_t i = 0; i < VF_STR_MAX; i++) { if (i < pos) tmp[i] = d[i]; else if (i < pos + len2) tmp[i] = p[i - pos]; else if (i < k) tmp[i] = d[i - len2 + len1]; }
   vf_str_set(s, tmp, k); return s;
 }
 /* _M_replace_aux(pos, n1, n2, c) */
 char* F__ZNSt7__cxx1112basic_stringIcSt11char_traitsIcESaIcEE14_M_replace_auxEmmmc(char* s, uint64_t pos, uint64_t n1, uint64_t n2, uint8_t c) {
   char tmp[VF_STR_MAX + 1];
   VF_ASSERT(n2 <= VF_STR_MAX, "string length within harness bound VF_STR_MAX");
-  for (uint64_t i = 0; i < n2 && i < VF_STR_MAX; i++) tmp[i] = (char)c;
+  for (uint64_t i = 0; i < VF_STR_MAX; i++) tmp[i] = (char)c;
   return F__ZNSt7__cxx1112basic_stringIcSt11char_traitsIcESaIcEE10_M_replaceEmmPKcm(s, pos, n1, tmp, n2);
 }
 /* _M_erase(pos, n) */
@@ -108,8 +107,8 @@ void F__ZNSt7__cxx1112basic_stringIcSt11char_traitsIcESaIcEE7reserveEm(char* s, 
   uint64_t cap = S_LOCAL(s) ? 15 : S_CAP(s);
   if (n <= cap) return;
   VF_ASSERT(n <= 4 * VF_STR_MAX + 64, "string capacity within harness bound");
-  char* np = vf_alloc(n + 1); uint64_t n0 = S_N(s);
-  for (uint64_t i = 0; i <= n0 && i <= VF_STR_MAX; i++) np[i] = S_P(s)[i];
+  char* np = vf_alloc(n + 1); uint64_t n0 = S_N(s); char* d0 = S_P(s);
+  for (uint64_t i = 0; i <= VF_STR_MAX; i++) if (i <= n0) np[i] = d0[i];
   if (!S_LOCAL(s)) free(S_P(s));
   S_P(s) = np; S_CAP(s) = n;
 }
@@ -117,7 +116,12 @@ void F__ZNSt7__cxx1112basic_stringIcSt11char_traitsIcESaIcEE7reserveEm(char* s, 
 void F__ZNSt7__cxx1112basic_stringIcSt11char_traitsIcESaIcEE6resizeEmc(char* s, uint64_t n, uint8_t c) {
   uint64_t n0 = S_N(s);
   if (n <= n0) { S_N(s) = n; S_P(s)[n] = 0; return; }
-  F__ZNSt7__cxx1112basic_stringIcSt11char_traitsIcESaIcEE14_M_replace_auxEmmmc(s, n0, 0, n - n0, c);
+  VF_ASSERT(n <= VF_STR_MAX, "string length within harness bound VF_STR_MAX");
+  uint64_t cap = S_LOCAL(s) ? 15 : S_CAP(s);
+  if (n > cap) F__ZNSt7__cxx1112basic_stringIcSt11char_traitsIcESaIcEE7reserveEm(s, n);
+  char* d = S_P(s);
+  for (uint64_t i = 0; i < VF_STR_MAX; i++) if (i >= n0 && i < n) d[i] = (char)c;
+  S_N(s) = n; d[n] = 0;
 }
 /* substr(pos, n) const  (sret) */
 void F__ZNKSt7__cxx1112basic_stringIcSt11char_traitsIcESaIcEE6substrEmm(char* ret, char* s, uint64_t pos, uint64_t n) {
@@ -210,6 +214,10 @@ uint32_t F___cxa_atexit(char* f, char* a, char* d) { return 0; }
 uint64_t F_strlen(char* p) { return vf_strlen(p); }
 char* F_strchr(char* p, uint32_t c) {
   for (uint64_t i = 0; i < VF_STR_MAX + 64; i++) { if (p[i] == (char)c) return p + i; if (!p[i]) return 0; }
+  return 0;
+}
+char* F_memchr(char* p, uint32_t c, uint64_t n) {
+  for (uint64_t i = 0; i < n && i < VF_STR_MAX + 64; i++) if (p[i] == (char)c) return p + i;
   return 0;
 }
 uint32_t F_toupper(uint32_t c) { return (c >= 'a' && c <= 'z') ? c - 32 : c; }
